@@ -165,7 +165,7 @@ def payload_st(tier):
 
 
 FALLBACKS = ['raw-named', 'raw-unknown', 'no-module', 'plugins-off', 'raises', 'returns-none',
-             'builtin-other-subtype', 'plugins-off-with-module', 'builtin-not-utf8']
+             'builtin-other-subtype', 'plugins-off-with-module', 'builtin-not-utf8', 'import-fails']
 
 
 @st.composite
@@ -226,14 +226,21 @@ def fallbacks(case, note):
         elif fb == 'returns-none':
             spec = {'udparsers': {name: {'kind': 'none'}}}
             expect_error = True
+        elif fb == 'import-fails':
+            # the module exists but raises while it is imported: the payload must survive; an error note is
+            # due unless the failure is an ImportError (then the module counts as absent)
+            how = ['RuntimeError', 'SyntaxError', 'FileNotFoundError', 'ImportError'][len(payload) % 4]
+            spec = {'udparsers': {name: {'kind': 'import-fails', 'how': how}}}
         elif fb == 'plugins-off-with-module':
             spec = {'udparsers': {name: {'kind': 'json', 'value': {'should': 'not run'}}}}
     after = {'k': 'UD', 'ver': 1, 'sub': 1, 'comp': 0x2000, 'data': b'{"after": true}'} if case['follow'] else None
     secs = []
+    prior_mod = None
     others = []         # (index, payload) of further hex-dumped sections that must survive too
     if case.get('prior') and fb in ('no-module', 'plugins-off', 'raises', 'returns-none', 'plugins-off-with-module'):
         pc = 'q' if chr(creator).lower() != 'q' else 'r'
         spec.setdefault('udparsers', {})[PL.ud_module_name(pc, comp)] = {'kind': 'json', 'value': {'Prior': 'parser'}}
+        prior_mod = 'udparsers.%s.%s' % (PL.ud_module_name(pc, comp), PL.ud_module_name(pc, comp))
         secs.append({'k': 'ED', 'ver': 1, 'sub': 1, 'comp': comp, 'creator': ord(pc), 'r1': 0, 'r2': 0,
                      'data': b'prior section'})
     if case.get('sandwich'):
@@ -264,10 +271,6 @@ def fallbacks(case, note):
             if ogot != opayload:
                 raise Violation('C04.payload', '%s: the hex dump carries %s, the payload is %s'
                                 % (names[2 + oi], ogot.hex(), opayload.hex()), sig='C04.payload:twin')
-        prior_mod = None
-        if case.get('prior') and secs and secs[0].get('data') == b'prior section':
-            pm = PL.ud_module_name(chr(secs[0]['creator']), comp)
-            prior_mod = 'udparsers.%s.%s' % (pm, pm)
         calls = [c for c in fx.calls if c[1] != prior_mod]
     dump = need(entry, 'Data', name)
     got = parse_default_dump(dump, name + ' / Data')
@@ -281,7 +284,7 @@ def fallbacks(case, note):
             raise Violation('C04.error-note', '%s: the parser %s but the section carries no error note: keys %r'
                             % (name, 'raised ' + case['exc'] if fb == 'raises' else 'returned nothing',
                                list(entry)), sig='C04.error-note:%s' % (case['exc'] if fb == 'raises' else 'none'))
-        if not calls:
+        if not calls and fb != 'import-fails':
             raise Violation('C04.fixture', '%s: the fixture parser was never called' % name, sig='C04.fixture')
     if fb == 'plugins-off-with-module' and calls:
         raise Violation('C04.plugins-off', 'a parser module ran although parser modules are disabled',
